@@ -42,6 +42,17 @@ def kernel_form(run, repo, rel, name, shape, ops, kind, rule='R8'):
         run.violation(rule, f, b.node, b.msg)
         return None
     except Undecidable as e:
+        if shape == 'loop' and ops and all(o in f.posparams for o in ops):
+            # the shape is not the one the normal form reads: at least every entry of the operands must be read on some path
+            try:
+                miss = nf.read_coverage(f, ops)
+            except Undecidable:
+                miss = None
+            if miss is not None:
+                N_, p_, idx = miss
+                run.violation(rule + '.cover', f, name, 'on strings of %d qubits (%d entries) the entries %s of `%s` are never read on any path through %s: '
+                              'the result cannot depend on those qubits' % (N_, 2 * N_, idx, p_, name))
+                return None
         run.undecided(rule, f, name, str(e))
         return None
     bad, m = nf.compare(form, kind)
